@@ -124,6 +124,8 @@ def run_c06(res, tier):
              "interpreters without unchecked code do not override execute_unsafe", floor=8, what="entry points")
     iolim.run_mode_map(res, ast, "SAFE-MAP")
     passes.run_c11(res, ast, rules=("WINDOW-BY-CONSTRUCTION",))
+    import rt
+    rt.run_tape_rules(res, ast, rules=("BOUNDS-GUARD", "TAPE-PAIR"))
     asmtab.run_asm_table(res, ast)
     asmtab.run_sel_width(res, ast)
     import mirrules
@@ -152,6 +154,9 @@ def run_c11(res, tier):
     ast = load_ast()
     passes.run_c11(res, ast)
     passes.run_pass_kill(res, ast)
+    res.rule("LAYOUT-PAIR", "the interpreter context is allocated and freed with the identical layout expression, sized for "
+             "max(temps, 2) cells (the two register spill slots are always present)", floor=1, what="layout pairs")
+    bcops.run_layout_pair(res, ast, "LAYOUT-PAIR")
     return {}
 
 
